@@ -7,7 +7,7 @@ from .client_family import TMPL
 def record(workdir, timeout=900):
     d = os.path.join(workdir, 'hooktrace'); os.makedirs(d, exist_ok=True)
     env = dict(C.GOENV, VERIF_HOOKTRACE=d)
-    p = subprocess.run(['go', 'test', '-tags', 'verif', '-count=1', './...'], cwd='/repo', env=env, stdout=subprocess.PIPE, stderr=subprocess.STDOUT, text=True, timeout=timeout)
+    p = subprocess.run(['go', 'test', '-tags', 'verif', '-count=1', './...'], cwd=C.REPO, env=env, stdout=subprocess.PIPE, stderr=subprocess.STDOUT, text=True, timeout=timeout)
     files = sorted(glob.glob(os.path.join(d, 'hooks-*.ndjson')))
     if not files:
         raise C.ToolError('running the repository tests with hooks recorded nothing:\n' + p.stdout[-2000:])
